@@ -1,13 +1,22 @@
 (* C14 — ill-formed directives are rejected at generation time; well-formed ones accepted.
 
-   Full statement (the target):   forall f, accepts f = true <-> WellFormed f.
-   Proved here: the equivalence check by check for duplicate Params, output-less tasks and
-   Invoke, duplicate providers, unused outputs, and dependency cycles (through tasks and
-   predicates, at any distance); hence C14_sound_partial. The two checks made by the provider
-   walk of validateFuncs ("no provider found", "unused input") are modelled and run against
-   the real tool and against the independent boolean rules wf_b on every generated flow, but
-   their equivalence with the declarative rules is not proved yet: partial. *)
-From CffVerif Require Import ValidateModel ValidateProofs.
+   Full statement, proved (C14_accepts_iff_wellformed):   forall f, accepts f = true <-> WellFormed f
+   for the executable model `accepts` of compileFlow's checks (ValidateModel: duplicate Params,
+   output-less tasks and Invoke, duplicate providers, unused outputs, the worklist provider
+   walk of validateFuncs with its fuel, the depth-first cycle search) and the declarative
+   rules of the property (every consumed type has exactly one provider, no dependency cycle
+   through tasks or predicates at any distance, every Params value and every task output is
+   consumed, a task has no outputs exactly when it is marked Invoke). Besides the check-by-check
+   equivalences below, the proof (ValidateWalk) shows that the walk's fuel always suffices
+   (a potential that decreases by one per step), that its invariant makes an empty result mean
+   "everything reachable from the Results and the Invoke sentinels has a source", and that in a
+   flow without cycles and without unused outputs every function leads forward to a Result or
+   an Invoke task (pigeonhole), so that "reachable" is "everything consumed".
+   Types are atoms: go/types identity and assignability are Go library code; the Slice/Map
+   element checks are C14_parallel / C14_assign_refuted. Tie: accept/reject, diagnostic
+   classes and presence of the output file of the real cff against the model and against the
+   independent boolean rules wf_b on every generated flow and mutation, one flow per file. *)
+From CffVerif Require Import ValidateModel ValidateProofs ValidateWalk.
 
 Theorem C14_dup_params : forall f, chk_dup_param f = false <-> NoDup (map TUser (fparams f)).
 Proof. exact chk_dup_param_spec. Qed.
@@ -33,6 +42,17 @@ Print Assumptions C14_unused_output.
 Theorem C14_cycle : forall f, chk_cycle f = false <-> forall t, ~ needs_plus f t t.
 Proof. exact chk_cycle_spec. Qed.
 Print Assumptions C14_cycle.
+
+(* the whole validator: accepted exactly when well-formed *)
+Theorem C14_accepts_iff_wellformed : forall f, accepts f = true <-> WellFormed f.
+Proof. exact accepts_iff_wellformed. Qed.
+Print Assumptions C14_accepts_iff_wellformed.
+
+(* the provider walk never runs out of fuel: it always ends with an empty worklist *)
+Theorem C14_walk_terminates :
+  forall f, exists visited, WInv f [] visited (snd (walk_result f)) (fst (walk_result f)).
+Proof. exact walk_terminates. Qed.
+Print Assumptions C14_walk_terminates.
 
 (* every accepted flow satisfies the rules that do not involve the provider walk *)
 Theorem C14_sound_partial :
